@@ -694,27 +694,6 @@ func runCase(cs *caseT, dir string, doAppend bool) (r result) {
 	return
 }
 
-// noCode: the statements compile to no instruction at all (only blocks that contain, recursively, nothing but blocks).
-func noCode(ss []*stmt) bool {
-	for _, s := range ss {
-		if s.Kind != "block" || !noCode(s.Body) {
-			return false
-		}
-	}
-	return true
-}
-
-// classG181: the program has a pattern-action whose body is not empty but compiles to no code (`/a/ { { } }`): the plain run
-// treats it as a missing action and prints the record, the instrumented run (and the twin) has code there and prints nothing.
-func classG181(p *program) bool {
-	for _, it := range p.Items {
-		if it.Kind == "action" && !it.NilBody && len(it.Body) > 0 && noCode(it.Body) {
-			return true
-		}
-	}
-	return false
-}
-
 // check is the implementation-side oracle; it returns failures as (what, finding, got, want).
 type failT struct{ what, finding, got, want string }
 
@@ -724,14 +703,6 @@ func check(cs *caseT, r result) (fs []failT) {
 	if r.plain.Err != "" || r.plain.Status > 3 || r.plain.Status < 0 {
 		add("generator: the plain program fails", "", fmt.Sprintf("status=%d stderr=%q", r.plain.Status, r.plain.Err), "a clean run")
 		return
-	}
-	if classG181(p) {
-		for _, m := range []runT{r.set, r.count} {
-			if m.Out != r.plain.Out || m.Status != r.plain.Status {
-				add("coverage changed the program's output or exit status", "G18-1", fmt.Sprintf("out=%q status=%d", m.Out, m.Status), fmt.Sprintf("out=%q status=%d", r.plain.Out, r.plain.Status))
-				return
-			}
-		}
 	}
 	if r.twin.Out != r.plain.Out || r.twin.Status != r.plain.Status {
 		add("generator: the twin program behaves differently from the original", "", fmt.Sprintf("%q/%d", r.twin.Out, r.twin.Status), fmt.Sprintf("%q/%d", r.plain.Out, r.plain.Status))
@@ -861,7 +832,7 @@ func fixedPrograms() []*program {
 	return []*program{
 		// F21 (fixed): empty action vs missing action
 		mk(&item{Kind: "action", Header: "/a/", Body: []*stmt{}}, &item{Kind: "action", Header: "/b/", NilBody: true}),
-		// G18-1 (recorded): an action that compiles to no code
+		// G18-1 (repaired): an action that compiles to no code prints nothing, with and without coverage
 		mk(&item{Kind: "action", Header: "/a/", Body: []*stmt{{Kind: "block", Body: []*stmt{}}}}),
 		// Appendix C: counter after the first statement would miss `next`
 		mk(&item{Kind: "action", Header: "", Body: []*stmt{J("next"), S(`print "s#"`)}}),
